@@ -20,6 +20,13 @@ class CxxThrow(Exception):
 
 
 def install_natives(m):
+    _install_natives(m)
+    # out-of-line libstdc++/libc members (string copy/assign/append/reserve, rb-tree, strtol, ...): same models as C13/C18
+    from .. import cxxnatives
+    cxxnatives.install(m)
+
+
+def _install_natives(m):
     def znwm(mach, n):
         if not isinstance(n, int):
             raise EngineLimit("operator new with a symbolic size")
@@ -142,6 +149,24 @@ def install_natives(m):
     m.natives["@__cxa_atexit"] = lambda mach, *a: 0       # destructors of statics at exit are not run
 
 
+def _instances_c03(schema, tier):
+    """The tier's length patterns, plus - for a dynamic array of sub-byte elements - one instance with more elements than
+    the whole message has bytes (a bit-packed format can carry that; a bound in whole bytes cannot)."""
+    yield from instances(schema, tier)
+
+    def sub_byte_dyn(t):
+        k = t[0]
+        if k == "dyn":
+            e = t[1]
+            return (e[0] in ("u", "i") and e[1] < 4) or sub_byte_dyn(e)
+        if k in ("arr", "opt"):
+            return sub_byte_dyn(t[1])
+        return False
+
+    if any(sub_byte_dyn(t) for _, fs in schema.structs for _, _, t in fs):
+        yield Inst(schema, [14])
+
+
 def c03_family(tier, sd=0):
     E = {"E5": mk_enum("E5", 5), "E1": mk_enum("E1", 1), "E200": mk_enum("E200", 200), "E8": mk_enum("E8", 8)}
     fam = []
@@ -160,6 +185,8 @@ def c03_family(tier, sd=0):
     add([("arr", ("u", 6), 3), ("arr", ("i", 9), 2), ("u", 1)])
     add([("u", 3), ("arr", ("f32",), 2), ("arr", ("enum", "E5"), 3)], E)
     add([("u", 3), ("opt", ("i", 13)), ("dyn", ("u", 5))])
+    add([("dyn", ("u", 1)), ("u", 16)])          # may hold more elements than the message has bytes
+    add([("u", 4), ("dyn", ("u", 3)), ("u", 7)])
     add([("u", 3), ("str",), ("i", 5)])
     add([("dyn", ("i", 16)), ("opt", ("f32",)), ("u", 1)])
     add([("opt", ("u", 64)), ("opt", ("enum", "E5"))], E)
@@ -233,7 +260,7 @@ def c03_case(args):
         mod = llsym.Mod()
         llsym.parse_module(open(ll).read(), mod)
         steps = 0
-        for ii, inst in enumerate(instances(schema, tier)):
+        for ii, inst in enumerate(_instances_c03(schema, tier)):
             canon = refspec.canon_bytes(schema, T, inst.value)
             # ---- Encode: typed value -> bytes
             m = llsym.Machine(mod)
